@@ -87,6 +87,16 @@ func (h *Sources) Undo() {
 		return
 	}
 
+	// When we start undoing, the current line might not have been saved yet
+	// (most commands only save the line before modifying it): keep it, so
+	// that redoing all undone steps restores the line we started from.
+	if line.pos == 0 && line.items[len(line.items)-1].line != string(*h.line) {
+		line.items = append(line.items, undoItem{
+			line: string(*h.line),
+			pos:  h.cursor.Pos(),
+		})
+	}
+
 	var undo undoItem
 
 	// When undoing, we loop through preceding undo items
@@ -147,7 +157,9 @@ func (h *Sources) Redo() {
 
 	line.pos--
 
+	// Nothing (more) to redo.
 	if line.pos < 1 {
+		line.pos = 0
 		return
 	}
 
